@@ -8,6 +8,7 @@
 From Coq Require Import List ZArith Bool.
 From V Require Import Lib.Enc Gen.StrzStd Model.Strconv Model.StrconvGrammar Model.Hex Run.C15.
 From V Require Import Proofs.StrconvLoop Proofs.StrconvGrammarUs Proofs.StrconvGrammarLit Proofs.StrconvGrammarInd Proofs.HexCodec Proofs.HexInPlace Proofs.StrzStdCase.
+From V Require Import Lib.GoSem Gen.StrconvCode Run.C15Code Proofs.StrconvCode.
 Import ListNotations.
 Local Open Scope Z_scope.
 
@@ -114,3 +115,46 @@ Theorem c15_model_equals_spec : forall k a b l1 l2 tbl,
   (k = 10 -> 0 <= a < 2 ^ 32) -> run false k a b l1 l2 tbl = run true k a b l1 l2 tbl.
 Proof. exact model_equals_spec. Qed.
 Print Assumptions c15_model_equals_spec.
+
+(* ---------------------------------------------------------------- the code itself, translated on every run *)
+(* coq/Gen/StrconvCode.v is the Go -> Gallina translation (gen/trans*.go, gen/TRANSLATOR.md) of the CURRENT bodies of
+   ParseUint (the byte-list instantiation of T ~string | ~[]byte), lower, underscoreOK (strz/std_strconv.go), hexEncode,
+   hexDecode, fromHexChar (strz/std_hex.go) and the wrappers HexEncode, HexDecode (strz/enc.go).  Each generated function
+   equals the hand-written model function the theorems above are about.  Conventions: uint64 / byte arithmetic wraps
+   (wrap 64 / wrap 8), Go int is unbounded Z, a string or []byte is the list of its bytes, an error is its KIND (nil = 0;
+   fmt.Errorf texts "invalid syntax" = 1, "value out of range" = 2, "invalid base" = 3, "invalid bit size" = 4 — the
+   model's presult_kind —, "invalid byte" = 5 + 16 * the byte, hex.ErrLength = 6), a slice parameter written in place
+   (dst) is returned in front of the results and is assumed not to share its array with src.
+   - ParseUint: for EVERY text (any integers, not only bytes), base and bit size, and every fuel above len(s);
+   - underscoreOK: for every text and every fuel above len(s);
+   - hexEncode: for src bytes and 2 * len(src) <= len(dst): the text goes to the front of dst, the rest of dst is kept;
+   - hexDecode: for every src, as soon as dst can take the decoded prefix; fuel above len(src) / 2;
+   - HexEncode / HexDecode: make + the loop + dst[:n], no premise besides bytes (HexEncode) and fuel.
+   Go's int is a 64-bit type: the translation is the code's behaviour as long as len(src) * 2 and j + 2 stay below 2^63,
+   i.e. for len(src) < 2^62 (hexEncode) and every possible slice length (hexDecode, ParseUint: indices only). *)
+Theorem c15_code_is_model :
+  (forall c, g_lower c = Ret (lower c)) /\
+  (forall c, g_fromHexChar c = Ret (match from_hex c with Some v => (v, true) | None => (0, false) end)) /\
+  (forall fuel s, (length s < fuel)%nat -> g_underscoreOK fuel s = Ret (underscore_ok s)) /\
+  (forall fuel s base bitSize, (length s < fuel)%nat ->
+     g_ParseUint fuel s base bitSize = Ret (presult_val (parse_uint s base bitSize), presult_kind (parse_uint s base bitSize))) /\
+  (forall fuel dst src, Forall (fun b => 0 <= b < 256) src -> (length src < fuel)%nat -> (2 * length src <= length dst)%nat ->
+     g_hexEncode fuel dst src = Ret (hex_encode src ++ skipn (2 * length src) dst, zlen src * 2)) /\
+  (forall fuel dst src, (length src < 2 * fuel)%nat -> (length (fst (hex_decode src [])) <= length dst)%nat ->
+     g_hexDecode fuel dst src =
+     Ret (fst (hex_decode src []) ++ skipn (length (fst (hex_decode src []))) dst,
+          (zlen (fst (hex_decode src [])), herr_code (snd (hex_decode src []))))) /\
+  (forall fuel s, Forall (fun b => 0 <= b < 256) s -> (length s < fuel)%nat -> g_HexEncode fuel s = Ret (hex_encode s)) /\
+  (forall fuel s, (length s < 2 * fuel)%nat -> g_HexDecode fuel s = Ret (fst (hex_decode s []), herr_code (snd (hex_decode s [])))).
+Proof.
+  exact (conj code_lower (conj code_fromHexChar (conj code_underscoreOK (conj code_ParseUint (conj code_hexEncode
+        (conj code_hexDecode (conj code_HexEncode code_HexDecode))))))).
+Qed.
+Print Assumptions c15_code_is_model.
+
+(* the case interpreter of the correspondence run, kinds 0 (ParseUint), 1 (HexEncode), 2 (HexDecode) executed through the
+   generated functions (Run/C15Code.v), gives the output of `entry` on every case: the differential run of entry 0 against
+   the compiled package is, for these kinds, a run of the generated code *)
+Theorem c15_entry_runs_generated_code : forall sub args, entry_code sub args = entry sub args.
+Proof. exact entry_code_is_entry. Qed.
+Print Assumptions c15_entry_runs_generated_code.
